@@ -278,6 +278,56 @@ def run_case(case, ctx):
                 judge(op, got, faults, h.injected, 'pair')
                 counters['pairs'] += 1
                 finish(h, r)
+    # ---- warm reader: a successful call of the same method with other arguments precedes the faulted call, which is then repeated.
+    # The failed call must raise or be right, and the fault-free repeat must never return the EARLIER call's data
+    def sibling(op):
+        name, a = op[0], op[1]
+        if sp.is2d:
+            nT, nZ = sp.shape
+            if name == 'get_trace' and len(a) == 1:
+                j = (a[0] + sp.bs[1]) % nT
+                return (name, (j,)) if j // sp.bs[1] != a[0] // sp.bs[1] else None
+            return None
+        nI, nX, nZ = sp.shape
+        lim = {'read_inline': (nI, sp.bs[0]), 'read_crossline': (nX, sp.bs[1]), 'read_zslice': (nZ, 4)}.get(name)
+        if lim and len(a) == 1:
+            n_, g = lim
+            g = max(g, 4)
+            for j in ((a[0] + g) % n_, 0, n_ - 1):
+                if j // g != a[0] // g:
+                    return (name, (j,))
+            return None
+        if name == 'get_trace' and len(a) == 1:
+            j = 0 if a[0] != 0 else sp.ntr - 1
+            return (name, (j,))
+        return None
+    for op in ops:
+        sib = sibling(op)
+        if sib is None:
+            continue
+        h = handle()
+        r = SgzReader(h)
+        m0 = len(h.log)
+        ref_sib = run_op_guarded(r, sib)
+        n_sib = len(h.log) - m0
+        finish(h, r)
+        if ref_sib[0] != 'ok' or ref_sib == truth_of[repr(op)]:
+            continue
+        for k in range(nreads[repr(op)]):
+            for kind in ('exc', 'empty'):
+                faults = {n_open + n_sib + k: kind}
+                h = handle(faults)
+                r = SgzReader(h)
+                run_op_guarded(r, sib)
+                got = run_op_guarded(r, op)
+                judge(op, got, faults, h.injected, 'single fault after a successful %s%s on the same reader' % (sib[0], sib[1]))
+                got2 = run_op_guarded(r, op)
+                counters['warm_fault_sequences'] = counters.get('warm_fault_sequences', 0) + 1
+                if got2[0] == 'breach' or (got2[0] == 'ok' and got2 != truth_of[repr(op)]):
+                    bad.append({'sig': '%s:%s:retry-after-%s-fault-on-warm-reader-returned-wrong-data' % (backend, op[0], kind),
+                                'detail': '%s%s then %s%s with fault %s, then the fault-free repeat: result differs from the true one%s'
+                                          % (sib[0], sib[1], op[0], op[1:], faults, ' (it is the earlier call\'s result)' if got2 == ref_sib else '')})
+                finish(h, r)
     # ---- construction-time faults (header blocks; preload)
     for preload in (False, True):
         h = handle()
@@ -377,6 +427,8 @@ def finalize(tier, cases, results, counters, strata):
             reasons.append('required stratum not hit: ' + s)
     if counters.get('injections', 0) == 0:
         reasons.append('no fault was injected')
+    if counters.get('warm_fault_sequences', 0) == 0:
+        reasons.append('no fault was injected on a warm reader')
     if counters.get('retries_ok', 0) == 0:
         reasons.append('no fault-free repeat of a failed call was observed to succeed')
     if counters.get('contract_evaluations', 0) == 0:
